@@ -7,7 +7,7 @@ use std::{collections::BTreeMap, env, fmt::Write as _, fs, path::PathBuf};
 use truc::{
     generator::{
         config::GeneratorConfig,
-        fragment::{clone::CloneImplGenerator, FragmentGenerator},
+        fragment::{clone::CloneImplGenerator, serde::SerdeImplGenerator, FragmentGenerator},
         generate,
     },
     record::{
@@ -106,6 +106,7 @@ struct ModuleDef {
     name: &'static str,
     ops: Vec<Op>,
     clone: bool,
+    serde: bool,
     tier: &'static str,
 }
 
@@ -125,6 +126,7 @@ fn corpus() -> Vec<ModuleDef> {
         ModuleDef {
             name: "m_box_reuse",
             clone: true,
+            serde: false,
             tier: "quick",
             ops: vec![
                 Add("a", U32, true), Add("b", BoxU32, false), Add("c", U8, true), Close(S::Simple),
@@ -135,6 +137,7 @@ fn corpus() -> Vec<ModuleDef> {
         ModuleDef {
             name: "m_tokens",
             clone: true,
+            serde: false,
             tier: "quick",
             ops: vec![
                 Add("t", Tok, false), Add("x", U32, false), Add("u", Tok4, false), Close(S::Simple),
@@ -146,6 +149,7 @@ fn corpus() -> Vec<ModuleDef> {
         ModuleDef {
             name: "m_shapes",
             clone: false,
+            serde: false,
             tier: "quick",
             ops: vec![
                 Add("a3", A3, true), Add("z", Unit, true), Add("s12", S12, true), Add("w", A16, true), Close(S::Simple),
@@ -156,6 +160,7 @@ fn corpus() -> Vec<ModuleDef> {
         ModuleDef {
             name: "m_empty_then_uninit",
             clone: false,
+            serde: false,
             tier: "quick",
             ops: vec![
                 Close(S::Simple),
@@ -167,6 +172,7 @@ fn corpus() -> Vec<ModuleDef> {
         ModuleDef {
             name: "m_split",
             clone: true,
+            serde: false,
             tier: "quick",
             ops: vec![
                 Add("wide", U64, false), Add("keep", U32, false), Add("zt", ZTok, false), Add("t", Tok, false), Close(S::Simple),
@@ -174,10 +180,23 @@ fn corpus() -> Vec<ModuleDef> {
                 Remove("lo"), Remove("zt"), Remove("t"), Add("p", U16, false), Add("q", U16, true), Add("z2", ZTok, false), Close(S::Simple),
             ],
         },
+        // serialization fragment: integers and a droppable value over three variants
+        ModuleDef {
+            name: "m_serde",
+            clone: false,
+            serde: true,
+            tier: "quick",
+            ops: vec![
+                Add("a", U32, false), Add("t", Tok, false), Add("b", U8, true), Close(S::Simple),
+                Remove("a"), Add("c", U64, false), Add("d", U16, true), Close(S::Simple),
+                Remove("t"), Remove("b"), Close(S::Simple),
+            ],
+        },
         // four variants, strategy mixture, u128, gaps refilled
         ModuleDef {
             name: "m_mixture",
             clone: false,
+            serde: false,
             tier: "thorough",
             ops: vec![
                 Add("a", U8, false), Add("b", U64, false), Add("c", U16, true), Close(S::Append),
@@ -190,6 +209,7 @@ fn corpus() -> Vec<ModuleDef> {
         ModuleDef {
             name: "m_carried",
             clone: true,
+            serde: false,
             tier: "thorough",
             ops: vec![
                 Add("k", BoxU32, false), Add("t", Tok4, false), Add("n", U8, true), Close(S::Basic),
@@ -253,7 +273,7 @@ fn random_module(index: usize, seed: u64) -> ModuleDef {
         }
         ops.push(Op::Close(match rng.below(4) { 0 => S::Simple, 1 => S::Basic, 2 => S::Append, _ => S::AppendRev }));
     }
-    ModuleDef { name: Box::leak(format!("r{}_{}", seed, index).into_boxed_str()), ops, clone: rng.below(2) == 0, tier: "random" }
+    ModuleDef { name: Box::leak(format!("r{}_{}", seed, index).into_boxed_str()), ops, clone: rng.below(2) == 0, serde: false, tier: "random" }
 }
 
 fn build(def: &ModuleDef) -> (RecordDefinition<NativeDatumDetails>, BTreeMap<String, (K, bool, DatumId)>) {
@@ -459,6 +479,65 @@ fn harnesses(def: &ModuleDef, vars: &[Vec<Field>], max_size: usize, max_align: u
             writeln!(o, "    }}\n").unwrap();
         }
 
+        // ---- C15: serialize / deserialize through the in-harness data format ----------------------
+        if def.serde {
+            let n = fields.len();
+            hdr(&mut o, &format!("c15_v{k}_round_trip"));
+            seeds(&mut o, fields, "s");
+            writeln!(o, "        let r = Record{k}::new({});", literal(&format!("UnpackedRecord{k}"), fields, &|f| format!("s_{}", f.name))).unwrap();
+            writeln!(o, "        let mut buf = crate::tokfmt::Buf::new();").unwrap();
+            writeln!(o, "        let res = serde::Serialize::serialize(&r, crate::tokfmt::Ser {{ out: &mut buf }});").unwrap();
+            writeln!(o, "        assert!(res.is_ok(), \"C15: serialization failed\");").unwrap();
+            writeln!(o, "        assert!(buf.len == {} && buf.toks[0] == crate::tokfmt::Token::TupleStart({n}) && buf.toks[{}] == crate::tokfmt::Token::TupleEnd, \"C15: a record is a tuple of its {n} fields\");", n + 2, n + 1).unwrap();
+            for (i, f) in fields.iter().enumerate() {
+                writeln!(o, "        assert!(buf.toks[{}] == <{t} as TokVal>::token(s_{nm}), \"C15: field {nm} encoded at position {i} (declaration order)\");", i + 1, t = f.k.ty(), nm = f.name).unwrap();
+            }
+            writeln!(o, "        let sd: bool = nd::<bool>();").unwrap();
+            writeln!(o, "        let mut inp = crate::tokfmt::Input {{ toks: &buf.toks, len: buf.len, pos: 0, self_describing: sd }};").unwrap();
+            writeln!(o, "        let back: Result<Record{k}, crate::tokfmt::FmtError> = serde::Deserialize::deserialize(crate::tokfmt::De {{ input: &mut inp }});").unwrap();
+            writeln!(o, "        assert!(back.is_ok(), \"C15: what was serialized does not deserialize\");").unwrap();
+            writeln!(o, "        let back = back.unwrap();").unwrap();
+            for f in fields {
+                writeln!(o, "        assert!(back.{nm}().same_value(s_{nm}), \"C15: field {nm} differs after the round trip\");", nm = f.name).unwrap();
+            }
+            check_acc(&mut o, "r", fields, &|f| format!("s_{}", f.name), "C15 source unchanged by serialization");
+            writeln!(o, "        drop(r);\n        drop(back);").unwrap();
+            writeln!(o, "        assert!(no_token_dropped_twice(), \"C06 C07: a value was destroyed twice (serde round trip)\");").unwrap();
+            writeln!(o, "        assert!(no_token_leaked(), \"C06 C15: a value was never destroyed (serde round trip)\");").unwrap();
+            writeln!(o, "    }}\n").unwrap();
+
+            // malformed input: too few elements / an undecodable element / (self-describing) too many
+            hdr(&mut o, &format!("c15_v{k}_malformed_input_is_rejected_without_leak"));
+            writeln!(o, "        let mut toks = [crate::tokfmt::Token::Nothing; crate::tokfmt::MAXTOK];").unwrap();
+            for (i, f) in fields.iter().enumerate() {
+                writeln!(o, "        toks[{}] = <{t} as TokVal>::any_token();", i + 1, t = f.k.ty()).unwrap();
+            }
+            writeln!(o, "        let fault: u8 = nd::<u8>();").unwrap();
+            writeln!(o, "        let p: usize = nd::<usize>();").unwrap();
+            writeln!(o, "        let sd: bool = nd::<bool>();").unwrap();
+            writeln!(o, "        let len;").unwrap();
+            writeln!(o, "        if fault == 0 {{").unwrap();
+            writeln!(o, "            // too few: only p < {n} elements").unwrap();
+            writeln!(o, "            if !(p < {n}) {{ return; }}").unwrap();
+            writeln!(o, "            toks[0] = crate::tokfmt::Token::TupleStart(p); toks[p + 1] = crate::tokfmt::Token::TupleEnd; len = p + 2;").unwrap();
+            writeln!(o, "        }} else if fault == 1 {{").unwrap();
+            writeln!(o, "            // element p cannot be decoded").unwrap();
+            writeln!(o, "            if !(p < {n}) {{ return; }}").unwrap();
+            writeln!(o, "            toks[0] = crate::tokfmt::Token::TupleStart({n}); toks[p + 1] = crate::tokfmt::Token::Bad; toks[{}] = crate::tokfmt::Token::TupleEnd; len = {};", n + 1, n + 2).unwrap();
+            writeln!(o, "        }} else {{").unwrap();
+            writeln!(o, "            // too many elements, in a format that knows the sequence length").unwrap();
+            writeln!(o, "            if !sd {{ return; }}").unwrap();
+            writeln!(o, "            toks[0] = crate::tokfmt::Token::TupleStart({}); toks[{}] = crate::tokfmt::Token::U8(0); toks[{}] = crate::tokfmt::Token::TupleEnd; len = {};", n + 1, n + 1, n + 2, n + 3).unwrap();
+            writeln!(o, "        }}").unwrap();
+            writeln!(o, "        let mut inp = crate::tokfmt::Input {{ toks: &toks, len, pos: 0, self_describing: sd }};").unwrap();
+            writeln!(o, "        let back: Result<Record{k}, crate::tokfmt::FmtError> = serde::Deserialize::deserialize(crate::tokfmt::De {{ input: &mut inp }});").unwrap();
+            writeln!(o, "        assert!(back.is_err(), \"C15: malformed input accepted\");").unwrap();
+            writeln!(o, "        drop(back);").unwrap();
+            writeln!(o, "        assert!(no_token_dropped_twice(), \"C06 C07: a value was destroyed twice (rejected input)\");").unwrap();
+            writeln!(o, "        assert!(no_token_leaked(), \"C15 C06: something already decoded was leaked when the input was rejected\");").unwrap();
+            writeln!(o, "    }}\n").unwrap();
+        }
+
         // ---- C05: conversions from the previous variant -----------------------------------------
         if k > 0 {
             let prev = &vars[k - 1];
@@ -602,7 +681,10 @@ fn main() {
             continue;
         }
         let (def, kinds) = build(&m);
-        let gens: Vec<Box<dyn FragmentGenerator>> = if m.clone { vec![Box::new(CloneImplGenerator)] } else { vec![] };
+        let mut gens: Vec<Box<dyn FragmentGenerator>> = if m.clone { vec![Box::new(CloneImplGenerator)] } else { vec![] };
+        if m.serde {
+            gens.push(Box::new(SerdeImplGenerator));
+        }
         let code = generate(&def, &GeneratorConfig::default_with_custom_generators(gens));
         fs::write(out.join(format!("{}.rs", m.name)), &code).unwrap();
         if let Some(d) = &dump {
